@@ -1,7 +1,7 @@
 (* C05 - Emitting then parsing returns the same events.   ONLY statements + `exact lemma`. *)
 From Coq Require Import List NArith ZArith Bool Arith String.
 Import ListNotations.
-Require Import Scan Pos DQ.
+Require Import Scan Pos DQ SQ.
 Require Emit EmitGrows EmitLemmas EmitPrefix.
 
 (* KIND C05_double_quoted_scalar_roundtrip : U *)
@@ -13,6 +13,15 @@ Theorem C05_double_quoted_scalar_roundtrip : forall t tail s,
   exists tok s', scan_flow_scalar true s = Ok (tok, s') /\ t_kind tok = TScalar t false SDouble /\ rest s' = tail.
 Proof. exact dq_roundtrip. Qed.
 Eval vm_compute in "ASSUME:C05_double_quoted_scalar_roundtrip"%string. Print Assumptions C05_double_quoted_scalar_roundtrip.
+
+(* KIND C05_single_quoted_scalar_roundtrip : U *)
+(* scalar contents character for character, single-quoted style: every text over printable ASCII written with its apostrophes
+   doubled reads back as exactly that text (see C02_single_quoted_scalar_roundtrip) *)
+Theorem C05_single_quoted_scalar_roundtrip : forall t z tail s,
+  forallb raw1 t = true -> z <> 39%N -> rest s = (39%N :: body1 t ++ 39%N :: z :: tail)%list ->
+  exists tok s', scan_flow_scalar false s = Ok (tok, s') /\ t_kind tok = TScalar t false SSingle /\ rest s' = (z :: tail)%list.
+Proof. exact sq_roundtrip. Qed.
+Eval vm_compute in "ASSUME:C05_single_quoted_scalar_roundtrip"%string. Print Assumptions C05_single_quoted_scalar_roundtrip.
 
 (* KIND C05_emit_prefix_monotone : U *)
 (* the emitter model's output is append-only (46 generated lemmas, one per function of Model/Emit.v: every run - returning, raising EmitterError or crashing - only
